@@ -1,23 +1,29 @@
 """C12 — checks that are not function contracts.
 
-D  (exhaustive)  The CFF dispatch of PostProcessor is a FINITE decision table.  Every cell is executed on the REAL functions
-                 (process, process_cff, _subroutinize, _subroutinize_with_cffsubr, _subroutinize_with_compreffor) with
-                 recording stand-ins for the three library entry points (cffsubr.subroutinize, compreffor.compress,
-                 convertCFFToCFF2) and a font stand-in that answers `tag in otf` and nothing else (any other access
-                 fails the cell, so the table provably depends on table presence only).  Domain:
+S  (syntactic / constants, exhaustive)  what the contracts in contracts/c12.py take from the code outside the functions they
+                 execute: (frame) `roundTolerance` / `optimizeCFF` are stored nowhere in Lib/ufo2ft but in
+                 OutlineOTFCompiler.__init__ (discharges the frame summary of `super().__init__` there); (defaults) the
+                 OTFCompiler dataclass defaults (optimizeCFF = SUBROUTINIZE, cffVersion = 1, subroutinizer = None, roundTolerance =
+                 None, postProcessorClass = PostProcessor, outlineCompilerClass = OutlineOTFCompiler), the keyword defaults of
+                 PostProcessor.process / process_cff, "cffsubr for both CFF 1 and CFF 2" in DEFAULT_SUBROUTINIZER_FOR_CFF_VERSION,
+                 every SubroutinizerBackend member has a specified `_subroutinize#<value>` contract; (call sites) BaseCompiler.compile
+                 calls `self.postprocess(font, ufo, glyphSet)` without `info`, `process_cff` is called only by `process`,
+                 `_subroutinize` only by `process_cff`, the `_subroutinize_with_*` helpers only through `_subroutinize`;
+                 compileOTF is `OTFCompiler(**kwargs).compile(ufo)`.
+D  (exhaustive cross-check)  The CFF dispatch of PostProcessor is PROVED as postconditions of process / process_cff / _subroutinize /
+                 _subroutinize_with_* (contracts/c12.py).  D executes every cell of the same finite decision table on the REAL
+                 functions with recording stand-ins for the three library entry points and a font stand-in that answers
+                 `tag in otf` and nothing else, against an independently written expectation.  It guards the WORDING of the proved
+                 table and covers the argument values the contracts' parameter types leave out (enum members and plain ints
+                 passed for cffVersion / subroutinizer / optimizeCFF).  Domain:
                    input tables  {none, 'CFF ', 'CFF2', both}
                  x optimizeCFF   {False, True} for process_cff; {False, True, -1, 0, 1, 2, 3, CFFOptimization.*} for process
                  x cffVersion    {None, 1, 2, CFFVersion.CFF, CFFVersion.CFF2, 0, 3 (invalid)}
                  x subroutinizer {None, 'cffsubr', 'compreffor', SubroutinizerBackend.*, 'tx' (invalid)}
-                 Expected, from the property: exactly one of {nothing, convertCFFToCFF2(otf),
-                 cffsubr.subroutinize(otf, cff_version=out, keep_glyph_names=False), compreffor.compress(otf)};
-                 NotImplementedError exactly for compreffor with a CFF2 input or output and for CFF2 -> CFF without
-                 subroutinising; no library call before an exception.  Complete for this domain (integers outside
-                 -1..3 for optimizeCFF are not enumerated: the code compares with `>= 2`).
 I  (exhaustive + bounded)  OutlineOTFCompiler.__init__ normalises optimizeCFF to `value >= SPECIALIZE` for every documented
-                 value; on generated UFOs a recording T2CharStringPen receives the same constructor arguments and the same
-                 drawing calls for all optimizeCFF values (end-to-end companion of the proved contract
-                 getCharStringForGlyph#C12).
+                 value (also proved: contract __init__#C12-level / -bool); on generated UFOs a recording T2CharStringPen receives
+                 the same constructor arguments and the same drawing calls for all optimizeCFF values (end-to-end companion of
+                 the proved contract getCharStringForGlyph#C12).
 O  (bounded)     the property's observer: every supported combination of optimizeCFF {0,1,2} x subroutinizer
                  {None, cffsubr, compreffor} x cffVersion {1,2} on generated UFOs renders every glyph with the same
                  RecordingPen operations and carries the same advances and the requested table flavour; unsupported
@@ -205,6 +211,94 @@ def _d():
             direct = PostProcessor._subroutinize_with_cffsubr if b is B.CFFSUBR else PostProcessor._subroutinize_with_compreffor
             run(f"{direct.__name__}(tags={tags}, {ver!r})", lambda: direct(otf, ver), want, otf)
     return cells, bad
+
+
+# ---- S: syntactic obligations and constants ---------------------------------------------------------------------------------
+def _s():
+    """-> (obligations, [(name, detail)] failures)"""
+    import ast
+    import dataclasses
+    import inspect
+
+    import ufo2ft
+    from ufo2ft._compilers.baseCompiler import BaseCompiler
+    from ufo2ft._compilers.otfCompiler import OTFCompiler
+    from ufo2ft.constants import CFFOptimization
+    from ufo2ft.outlineCompiler import OutlineOTFCompiler
+    from ufo2ft.postProcessor import PostProcessor
+
+    from pyvc import api
+
+    from . import c01
+
+    obs, fails = 0, []
+
+    def ob(name, ok, detail=""):
+        nonlocal obs
+        obs += 1
+        if not ok:
+            fails.append((name, detail))
+
+    # frame of super().__init__ in OutlineOTFCompiler.__init__ (the same exhaustive scan C01 uses)
+    n, bad = c01.scan_frame()
+    ob("frame.attribute-stores", not bad, "; ".join(f"{w}: {m}" for w, m in bad[:3]))
+    # defaults
+    dflt = {f.name: f.default for f in dataclasses.fields(OTFCompiler)}
+    want = {"optimizeCFF": CFFOptimization.SUBROUTINIZE, "cffVersion": 1, "subroutinizer": None, "roundTolerance": None,
+            "postProcessorClass": PostProcessor, "outlineCompilerClass": OutlineOTFCompiler}
+    for k, v in want.items():
+        ob(f"defaults.OTFCompiler.{k}", k in dflt and dflt[k] is v or (k in dflt and not isinstance(v, type) and v is not None and dflt[k] == v and type(dflt[k]) is type(v)),
+           f"OTFCompiler.{k} default is {dflt.get(k, '<missing>')!r}, documented {v!r}")
+    for fn, exp in ((PostProcessor.process, {"useProductionNames": None, "optimizeCFF": True, "cffVersion": None, "subroutinizer": None}),
+                    (PostProcessor.process_cff, {"optimizeCFF": True, "cffVersion": None, "subroutinizer": None})):
+        sig = inspect.signature(fn)
+        got = {k: p.default for k, p in sig.parameters.items() if k != "self"}
+        ob(f"defaults.{fn.__name__}", got == exp and all(got[k] is exp[k] for k in exp), f"{fn.__name__} keyword defaults {got}, documented {exp}")
+    B = PostProcessor.SubroutinizerBackend
+    table = PostProcessor.DEFAULT_SUBROUTINIZER_FOR_CFF_VERSION
+    ob("defaults.backend-by-version", set(table) == {1, 2} and all(v is B.CFFSUBR for v in table.values()), f"DEFAULT_SUBROUTINIZER_FOR_CFF_VERSION = {table}")
+    for m in B:
+        c = api.CONTRACTS.get(f"ufo2ft.postProcessor:PostProcessor._subroutinize#{m.value}")
+        ob(f"enum.backend-specified.{m.value}", c is not None and "unspecified-backend" not in c.ensures and hasattr(PostProcessor, f"_subroutinize_with_{m.value}"),
+           f"SubroutinizerBackend.{m.name} has no specified dispatch contract / no _subroutinize_with_{m.value}")
+    # call sites
+    def calls_of(attr):
+        out = []
+        for mod in (inspect.getmodule(PostProcessor), inspect.getmodule(BaseCompiler), ufo2ft):
+            tree = ast.parse(inspect.getsource(mod))
+            for fdef in [n for n in ast.walk(tree) if isinstance(n, (ast.FunctionDef, ast.AsyncFunctionDef))]:
+                for n in ast.walk(fdef):
+                    if isinstance(n, ast.Call) and isinstance(n.func, ast.Attribute) and n.func.attr == attr:
+                        out.append((fdef.name, n))
+                    if isinstance(n, ast.Attribute) and n.attr == attr and not isinstance(n.ctx, ast.Load):
+                        out.append((fdef.name, None))
+        return out
+
+    import pathlib
+
+    lib = pathlib.Path(inspect.getfile(ufo2ft)).parent
+    texts = {str(p): p.read_text(encoding="utf-8") for p in lib.rglob("*.py")}
+
+    def mentions(word):
+        return sorted({pathlib.Path(p).name for p, t in texts.items() if word in t})
+
+    pc = calls_of("process_cff")
+    ob("callsites.process_cff", [f for f, _ in pc] == ["process"] and mentions("process_cff") == ["postProcessor.py"], f"process_cff mentioned in {mentions('process_cff')}, called from {[f for f, _ in pc]}")
+    sc = calls_of("_subroutinize")
+    ob("callsites._subroutinize", [f for f, _ in sc] == ["process_cff"] and mentions("_subroutinize") == ["postProcessor.py"], f"_subroutinize called from {[f for f, _ in sc]}")
+    src = texts[str(lib / "postProcessor.py")]
+    ob("callsites._subroutinize_with", src.count("_subroutinize_with_") == 1 + len(list(B)) and 'getattr(cls, f"_subroutinize_with_{backend.value}")' in src,
+       "the _subroutinize_with_* helpers are referenced elsewhere than their definitions and the getattr in _subroutinize")
+    comp = [n for f, n in calls_of("postprocess") if f == "compile" and n is not None]
+    bc = ast.parse(inspect.getsource(inspect.getmodule(BaseCompiler)))
+    base_compile = [f for c in ast.walk(bc) if isinstance(c, ast.ClassDef) and c.name == "BaseCompiler" for f in c.body if isinstance(f, ast.FunctionDef) and f.name == "compile"]
+    pcalls = [n for f in base_compile for n in ast.walk(f) if isinstance(n, ast.Call) and isinstance(n.func, ast.Attribute) and n.func.attr == "postprocess"]
+    ob("callsites.compile-postprocess-without-info", len(pcalls) == 1 and len(pcalls[0].args) == 3 and not pcalls[0].keywords,
+       "BaseCompiler.compile no longer calls self.postprocess(font, ufo, glyphSet) (info=None is a precondition of the postprocess / process contracts)")
+    co = ast.parse(inspect.getsource(ufo2ft.compileOTF)).body[0]
+    ret = [n for n in co.body if isinstance(n, ast.Return)]
+    ob("callsites.compileOTF", len(ret) == 1 and ast.unparse(ret[0].value) == "OTFCompiler(**kwargs).compile(ufo)", f"compileOTF returns {ast.unparse(ret[0].value) if ret else '?'}")
+    return obs, fails
 
 
 # ---- I: the outline compiler ---------------------------------------------------------------------------------------------
@@ -397,14 +491,24 @@ def c12_checks(tier, seed):
     res = {"obligations": 0, "discharged": 0, "bounded": [], "violations": [], "checker_errors": [], "evaluations": 0, "distinct": 0,
            "trusted": ["fontTools specialiser (T2CharStringPen.getCharString(optimize=True)), cffsubr.subroutinize, compreffor.compress and "
                        "fontTools convertCFFToCFF2 preserve the drawing operations, coordinates and widths of every charstring (ASSUMED; bounded observer C12.O)"],
-           "assumptions": ["hook C12.D: the decision table is enumerated completely over the stated finite domain; optimizeCFF integers outside -1..3 are not enumerated"]}
-    # D: exhaustive -> counted as obligations (one per cell)
+           "assumptions": []}
+    # S: syntactic obligations / constants
+    try:
+        n_obs, fails = _s()
+        res["obligations"] += n_obs
+        res["discharged"] += n_obs - len(fails)
+        for name, detail in fails[:4]:
+            res["violations"].append(_violation(f"{PID}.hook.S.{name}", {"clause": name, "observed": detail}))
+        res["assumptions"].append("hook C12.S: exhaustive AST scan of Lib/ufo2ft for attribute stores / call sites (no aliasing of process_cff, _subroutinize*; no computed setattr in outlineCompiler.py)")
+    except Exception:
+        res["checker_errors"].append(f"hook {PID}.S crashed: {traceback.format_exc()[-900:]}")
+    # D: exhaustive cross-check of the proved decision table (every cell executed on the real functions)
     try:
         cells, bad = _d()
-        res["obligations"] += cells
-        res["discharged"] += cells - len(bad)
         res["evaluations"] += cells
         res["distinct"] += cells
+        res["bounded"].append({"check": f"{PID}.D.decision-table", "what": "exhaustive cross-check of the proved CFF dispatch table on the real functions with recording library stand-ins "
+                               "(incl. enum-member / plain-int argument values outside the contracts' parameter types)", "bound": f"{cells} cells = the complete stated domain", "failures": len(bad)})
         for b in bad[:3]:
             slug = "".join(ch if ch.isalnum() or ch in "._=-" else "_" for ch in b["cell"].replace(" ", "").replace("'", ""))
             res["violations"].append(_violation(f"{PID}.hook.D.decision-table.{slug}", {"clause": "CFF dispatch decision table", "observed": b}))
